@@ -31,6 +31,14 @@ class Crash(BaseException):
     """Process death: not catchable by `except Exception`; the FS is frozen afterwards."""
 
 
+class Diverged(BaseException):
+    """A call issued more file-system operations than any terminating call of the code under test could: it is taken
+    not to return (not catchable by `except Exception`; every further operation raises it again)."""
+
+
+OP_BUDGET = 50000        # operations and probes per FS object (one call under test, or one history)
+
+
 class Ent:
     """One file entry.  exists: bool or z3 BoolRef (decided lazily); data: bytes or thunk -> bytes."""
     __slots__ = ("exists", "data", "tag")
@@ -222,7 +230,14 @@ class FS:
         self.hardlinks = None     # optional callable() -> bool: does this file system support hard links?
 
     # ---- injection points
+    def _count(self, kind, path):
+        self.npoints = getattr(self, "npoints", 0) + 1
+        if self.npoints > OP_BUDGET:
+            raise Diverged("%d file-system operations and probes in one call (last: %s %s)" % (
+                self.npoints, kind, path))
+
     def tick(self, kind, path):
+        self._count(kind, path)
         if self.dead:
             raise Crash()
         if self.on_point is not None:
@@ -240,6 +255,7 @@ class FS:
                 raise
 
     def probe(self, kind, path):
+        self._count(kind, path)
         if self.dead:
             raise Crash()
         if self.on_point is not None:
@@ -291,6 +307,8 @@ class FS:
             if self.b.isfile(d):
                 raise NotADirectoryError(errno.ENOTDIR, "Not a directory", d)
             self.tick("mkdir", d)
+            if self.b.isfile(d):     # something that is not a directory appeared there in between
+                raise FileExistsError(errno.EEXIST, "File exists", d)
             if self.b.isdir(d):      # another thread created it in between
                 if i == len(parts) and not exist_ok:
                     raise FileExistsError(errno.EEXIST, "File exists", d)
